@@ -324,6 +324,8 @@ func ShortCircuitProgs(firstID int, depth int, per int, sample int, rng *rand.Ra
 		idc = 0
 		for _, k := range idx[i:j] {
 			body = append(body, Print(trees[k]()))
+			// the same tree as a bare statement (value ignored): the compiler takes another path
+			body = append(body, ExprS(trees[k]()))
 		}
 		body = append(body, Return(Int(0)))
 		p := Prog(firstID+len(progs), map[string]M{"main_": Def(nil, "Int", false, body)})
